@@ -80,7 +80,7 @@ structure PreOk (c : Cfg) : Prop where
   two : 2 ≤ c.interfaces.length
   numeric : c.intfNumeric = true
   lm1 : ∀ x, c.lm1 = .val x → ∃ f, c.interfaces.head? = some f ∧ x < f
-  noQuantisLm1 : ¬ (c.quantis = some true ∧ ∃ x, c.lm1 = .val x ∧ x ≠ 0)
+  noQuantisLm1 : ¬ (c.quantis = some true ∧ ∃ x, c.lm1 = .val x)
   workers : c.workers ≤ (c.interfaces.length : Int) - 1
   sorted : c.interfaces.Pairwise (· < ·)
   moves : c.interfaces.length ≤ c.moves.length
@@ -368,10 +368,13 @@ theorem gromacsTest_error (c : Cfg) (e : Err) (hne : c.ensEngines ≠ none)
 theorem lm1Truthy_iff (l : Lm1) : lm1Truthy l = true ↔ ∃ x, l = .val x ∧ x ≠ 0 := by
   cases l <;> simp [lm1Truthy]
 
+theorem lm1_isVal_iff (l : Lm1) : l.isVal = true ↔ ∃ x, l = .val x := by
+  cases l <;> simp [Lm1.isVal]
+
 theorem preCheck_ok_iff (c : Cfg) : preCheck c = .ok () ↔ PreOk c := by
   unfold preCheck
   simp only [seq_ok_iff, rejectIf_ok_iff, lm1Test_ok_iff, decide_eq_false_iff_not,
-    Bool.and_eq_false_iff, ← Bool.not_eq_true (lm1Truthy c.lm1), lm1Truthy_iff,
+    Bool.and_eq_false_iff, ← Bool.not_eq_true (c.lm1.isVal), lm1_isVal_iff,
     Decidable.not_not, isort_eq_self_iff, distinct_length_eq_iff, roomTest_ok_iff,
     engineListTest_ok_iff, sizeTest_ok_iff]
   constructor
@@ -473,10 +476,10 @@ example : Valid { good with cap := none } ∧ ({ good with cap := none } : Cfg).
   ⟨accept_sound _ (by decide), by decide⟩
 
 /-- Conversely the code rejects nothing the property allows, except through its extra rules:
-    quantis together with a non-zero λ₋₁, an ensemble without (enough) engine lists, and the
+    quantis together with a λ₋₁ (any value, 0.0 included since /repo b3eda5b), an ensemble without (enough) engine lists, and the
     gromacs `input_path` rule. -/
 theorem valid_accepted (c : Cfg) (hv : Valid c)
-    (hq : ¬ (c.quantis = some true ∧ ∃ x, c.lm1 = .val x ∧ x ≠ 0))
+    (hq : ¬ (c.quantis = some true ∧ ∃ x, c.lm1 = .val x))
     (hcov : EnginesCover c) (hg : ∀ p ∈ c.engines, p.2.cls ≠ 0) : check c = .ok () := by
   rw [check_ok_iff]
   exact {
@@ -1691,36 +1694,91 @@ differs from the number of interfaces (an interface added to or removed from a r
 `setup_internal` then raised ValueError in `load_paths` (`self.state[ens, :] = valid`: "could not broadcast
 input array").  `checkAsIs` / `startUpAsIs` keep that code as a record. -/
 
-/-- the two later tests (971ccbc: size, a54d86e: numbers) are the only difference: where they pass, the two checks agree -/
-theorem check_eq_asIs_of_size (c : Cfg) (h : sizeTest c = .ok ()) (hn : c.intfNumeric = true) :
+/-- the two forms of the quantis test (b3eda5b: `is not False`, before: truthiness) differ only for λ₋₁ = 0 -/
+theorem quantisTest_eq_truthy (c : Cfg) (hq : ¬ (c.quantis = some true ∧ c.lm1 = .val 0)) :
+    (decide (c.quantis = some true) && c.lm1.isVal) = (decide (c.quantis = some true) && lm1Truthy c.lm1) := by
+  cases hl : c.lm1 with
+  | absent => simp [Lm1.isVal, lm1Truthy]
+  | off => simp [Lm1.isVal, lm1Truthy]
+  | val x =>
+    by_cases hx : x = 0
+    · subst hx
+      have : ¬ c.quantis = some true := fun h => hq ⟨h, hl⟩
+      simp [this]
+    · simp [Lm1.isVal, lm1Truthy, hx]
+
+/-- the later tests (971ccbc: size, a54d86e: numbers, b3eda5b: quantis with λ₋₁ = 0) are the only difference:
+    where they pass, the two checks agree -/
+theorem check_eq_asIs_of_size (c : Cfg) (h : sizeTest c = .ok ()) (hn : c.intfNumeric = true)
+    (hq : ¬ (c.quantis = some true ∧ c.lm1 = .val 0)) :
     check c = checkAsIs c := by
   unfold check checkAsIs preCheck preCheckAsIs
-  simp only [h, hn, seq, rejectIf, Bool.not_true, Bool.false_eq_true, if_false]
+  simp only [h, hn, quantisTest_eq_truthy c hq, seq, rejectIf, Bool.not_true, Bool.false_eq_true, if_false]
 
 /-- **What 971ccbc (and, for values that are not numbers, a54d86e) changed, exactly.** The repaired
     `check_config` accepts a configuration iff the old one did, the `[current]` table (if any) was written for
     this number of interfaces, and the interfaces are numbers. -/
 theorem check_ok_iff_asIs (c : Cfg) :
     check c = .ok () ↔ checkAsIs c = .ok () ∧ (∀ s, c.curSize = some s → s = c.interfaces.length) ∧
-      c.intfNumeric = true := by
+      c.intfNumeric = true ∧ ¬ (c.quantis = some true ∧ c.lm1 = .val 0) := by
   constructor
   · intro h
     have hsz := ((check_ok_iff c).1 h).pre.size
     have hn := ((check_ok_iff c).1 h).pre.numeric
-    exact ⟨by rw [← check_eq_asIs_of_size c ((sizeTest_ok_iff c).2 hsz) hn]; exact h, hsz, hn⟩
-  · rintro ⟨h, hsz, hn⟩
-    rw [check_eq_asIs_of_size c ((sizeTest_ok_iff c).2 hsz) hn]; exact h
+    have hq : ¬ (c.quantis = some true ∧ c.lm1 = .val 0) :=
+      fun ⟨h1, h2⟩ => ((check_ok_iff c).1 h).pre.noQuantisLm1 ⟨h1, 0, h2⟩
+    exact ⟨by rw [← check_eq_asIs_of_size c ((sizeTest_ok_iff c).2 hsz) hn hq]; exact h, hsz, hn, hq⟩
+  · rintro ⟨h, hsz, hn, hq⟩
+    rw [check_eq_asIs_of_size c ((sizeTest_ok_iff c).2 hsz) hn hq]; exact h
 
 example : checkAsIs goodR = .ok () ∧ (∀ s, goodR.curSize = some s → s = goodR.interfaces.length) ∧
-    goodR.intfNumeric = true :=
+    goodR.intfNumeric = true ∧ ¬ (goodR.quantis = some true ∧ goodR.lm1 = .val 0) :=
   (check_ok_iff_asIs goodR).1 (by decide)
+
+/-! ### quantis together with λ₋₁ = 0.0 (/repo commit b3eda5b) -/
+
+/-- where the combination quantis ∧ λ₋₁ = 0 does not occur, the test of b3eda5b changes nothing -/
+theorem check_eq_truthyLm1 (c : Cfg) (hq : ¬ (c.quantis = some true ∧ c.lm1 = .val 0)) :
+    check c = checkTruthyLm1 c := by
+  unfold check checkTruthyLm1 preCheck preCheckTruthyLm1
+  simp only [quantisTest_eq_truthy c hq]
+
+/-- **Quantis together with any λ₋₁ — 0.0 included — is rejected with a TOMLConfigError.** -/
+theorem quantis_with_lm1_rejected (c : Cfg) (hq : c.quantis = some true) (x : Int) (hl : c.lm1 = .val x)
+    (hne : c.ensEngines ≠ none) : check c = .error .config := by
+  cases h : check c with
+  | ok u => cases u; exact absurd ⟨hq, x, hl⟩ ((check_ok_iff c).1 h).pre.noQuantisLm1
+  | error e =>
+    unfold check at h
+    rw [seq_error_iff] at h
+    rcases h with h | ⟨hp, _⟩
+    · rw [preCheck_error c e hne h]
+    · exact absurd ⟨hq, x, hl⟩ ((preCheck_ok_iff c).1 hp).noQuantisLm1
+
+/-- interfaces [2, 4, 6], quantis on, λ₋₁ = 0.0 (below the first interface: a legal value) -/
+def quantisLm1Zero : Cfg :=
+  { good with
+    interfaces := [2, 4, 6], workers := 1, moves := [false, false, false], cap := none, lm1 := .val 0,
+    quantis := some true, ensEngines := some [["engine"], ["engine"], ["engine"]] }
+
+/-- **The defect b3eda5b repaired (record).**  `if quantis and lambda_minus_one:` read the legal value
+    λ₋₁ = 0.0 as "no λ₋₁": the old `check_config` accepted quantis together with it; the repaired one rejects
+    the combination with a TOMLConfigError, as for every other λ₋₁. -/
+theorem quantis_lm1_zero_asIs_counterexample :
+    checkTruthyLm1 quantisLm1Zero = .ok () ∧ check quantisLm1Zero = .error .config ∧
+    checkTruthyLm1 { quantisLm1Zero with lm1 := .val (-1) } = .error .config ∧
+    check { quantisLm1Zero with lm1 := .off } = .ok () := by decide
+
+example : quantisLm1Zero.quantis = some true ∧ quantisLm1Zero.lm1 = .val 0 ∧ quantisLm1Zero.ensEngines ≠ none := by
+  decide
 
 /-! ### interfaces that are not numbers (/repo commit a54d86e) -/
 
 /-- where the interfaces are numbers the test of a54d86e changes nothing -/
-theorem check_eq_noNumericTest (c : Cfg) (hn : c.intfNumeric = true) : check c = checkNoNumericTest c := by
+theorem check_eq_noNumericTest (c : Cfg) (hn : c.intfNumeric = true)
+    (hq : ¬ (c.quantis = some true ∧ c.lm1 = .val 0)) : check c = checkNoNumericTest c := by
   unfold check checkNoNumericTest preCheck preCheckNoNumericTest
-  simp only [hn, seq, rejectIf, Bool.not_true, Bool.false_eq_true, if_false]
+  simp only [hn, quantisTest_eq_truthy c hq, seq, rejectIf, Bool.not_true, Bool.false_eq_true, if_false]
 
 /-- **Interfaces that are not numbers are rejected with a TOMLConfigError** — whatever else the configuration
     says (at least two entries: fewer are rejected by the first test, also with a TOMLConfigError). -/
